@@ -91,6 +91,30 @@ MSM_SHAPES = [("shape", 13, 5, 7, 0), ("shape", 11, 6, 66, 1), ("shape", 33, 2, 
               ("shape", 8, 8, 64, 1), ("shape", 16, 4, 64, 1), ("shape", 32, 2, 64, 1), ("shape", 64, 32, 3, 1), ("shape", 63, 1, 63, 0),
               ("shape", 64, 1, 2, 1), ("shape", 1, 1, 1, 1), ("shape", 3, 32, 40, 1), ("shape", 9, 7, 63, 1), ("shape", 64, 2, 1, 0),
               ("shape", 2, 2, 0, 0), ("shape", 7, 9, 1, 1), ("shape", 65 // 5, 5, 65, 1)]
+M61 = (1 << 61) - 1      # CPython hashes ints modulo this prime: masks that differ by it have equal hash()
+
+
+def hash_colliding_mask_pairs(rng):
+    """pairs of ('exact', DF394, DF395, DF396) mask triples that differ in ONE mask only, by exactly 2**61-1 (equal hash, equal popcount)"""
+    sat8 = 0xA500000000810003 & ~((1 << 61) | 1)
+    sat8 |= 1 << 40
+    sig8 = 0x40010000 | 0x00300C03 | (1 << 27)
+    out = []
+    for _ in range(2):
+        x = rng.getrandbits(64) & ~((1 << 61) | 1) & 0xFFFFFFFFFFFFFFFF
+        x &= rng.getrandbits(64) | (1 << 63)
+        nsat = bin(sat8).count("1")
+        nsig = bin(sig8).count("1")
+        if nsat * nsig >= 62:
+            w = nsat * nsig
+            xc = x & ((1 << w) - 1) & ~((1 << 61) | 1)
+            xc &= (1 << 20) - 1 | (7 << (w - 3))          # a handful of cells only
+            out.append((("exact", sat8, sig8, xc | (1 << 61)), ("exact", sat8, sig8, xc | 1)))
+        xs = x & 0x00FF00000000FF00
+        out.append((("exact", xs | (1 << 61), 0x40010000, (1 << 200) - 1), ("exact", xs | 1, 0x40010000, (1 << 200) - 1)))
+    return out
+
+
 MASK64 = [0, 1, 1 << 63, (1 << 63) | 1, 3 << 62, (1 << 64) - 1]
 MASK32 = [0, 1, 1 << 31, (1 << 31) | (1 << 30), 6 << 28, 1 << 30, (1 << 32) - 1]
 
@@ -183,7 +207,9 @@ def _build(tabs, ident, rng, maxcount=3, mode="rand", maskmode=None, force_count
             elif k == "DF396":
                 w = env["NSat"] * env["NSig"]
                 pc[path + ("#NSat", "#NSig")] = w
-                if isinstance(maskmode, tuple):
+                if isinstance(maskmode, tuple) and maskmode[0] == "exact":
+                    val = maskmode[3] & ((1 << w) - 1)
+                elif isinstance(maskmode, tuple):
                     val = 0
                     for q in rng.sample(range(w), min(maskmode[3], w)):
                         val |= 1 << q
@@ -198,7 +224,9 @@ def _build(tabs, ident, rng, maxcount=3, mode="rand", maskmode=None, force_count
                 else:
                     val = rnd_value(rng, w, mode if mode != "signbit" else "rand")
             elif k == "DF394":
-                if isinstance(maskmode, tuple):
+                if isinstance(maskmode, tuple) and maskmode[0] == "exact":
+                    val = maskmode[1]
+                elif isinstance(maskmode, tuple):
                     val = 0
                     for q in rng.sample(range(64), min(maskmode[1], 64)):
                         val |= 1 << q
@@ -216,7 +244,9 @@ def _build(tabs, ident, rng, maxcount=3, mode="rand", maskmode=None, force_count
                     val = rng.choice(MASK64[:5] + [rng.getrandbits(64) & rng.getrandbits(64) & rng.getrandbits(64),
                                                    rng.getrandbits(64) & rng.getrandbits(64) & rng.getrandbits(64) & rng.getrandbits(64)])
             elif k == "DF395":
-                if isinstance(maskmode, tuple):
+                if isinstance(maskmode, tuple) and maskmode[0] == "exact":
+                    val = maskmode[2]
+                elif isinstance(maskmode, tuple):
                     val = 0
                     for q in rng.sample(range(32), min(maskmode[2], 32)):
                         val |= 1 << q
@@ -328,6 +358,83 @@ def crc24q_ref(data):
 def frame(payload):
     hdr = b"\xd3" + len(payload).to_bytes(2, "big")
     return hdr + payload + crc24q_ref(hdr + payload).to_bytes(3, "big")
+
+
+POLY25 = 0x1864CFB
+
+
+def crc_collide(fr, k):
+    """another frame of the same length and with the SAME checksum bytes: fr xor (generator polynomial << k), k >= 24 so that the
+    trailer is untouched; the change stays clear of the 3 header bytes and of the first two payload bytes (message number) when it fits"""
+    n = int.from_bytes(fr, "big") ^ (POLY25 << k)
+    return n.to_bytes(len(fr), "big")
+
+
+def collide_variants(fr):
+    """all same-checksum siblings of a frame that keep header and message number (empty for frames shorter than 12 bytes)"""
+    nb = len(fr) * 8
+    return [crc_collide(fr, k) for k in range(24, nb - 40 - 25 + 1)]
+
+
+def nested_payloads(rng, inner_payload):
+    """payloads that are themselves frames, or start like one: (what, payload)"""
+    f1 = frame(inner_payload)
+    out = [("payload is a complete frame", f1)]
+    if len(f1) + 6 <= 1023:
+        out.append(("payload is a frame of a frame", frame(f1)))
+    out.append(("payload is a frame with a wrong checksum", f1[:-1] + bytes([f1[-1] ^ 1])))
+    out.append(("payload is a frame followed by two more bytes", f1 + b"\r\n"))
+    out.append(("payload starts with a UBX header", b"\xb5\x62" + bytes(rng.getrandbits(8) for _ in range(8))))
+    out.append(("payload starts with an NMEA header", b"$GPGGA,1,2*00\r\n"))
+    return [(w, pl) for w, pl in out if 2 <= len(pl) <= 1023]
+
+
+def prefix_frame_pairs(rng):
+    """(long frame, bit positions to flip, short frame): flipping the given bits of the long frame's LENGTH field yields a byte string whose
+    prefix is exactly the valid short frame.  A parser that trusts a damaged length field and re-checks the prefix accepts the damage."""
+    out = []
+    for n_short, n_long in ((14, 78), (14, 14 + 256), (5, 5 + 512), (30, 30 + 64 + 2), (2, 2 + 4), (3, 3 + 16)):
+        ps = bytes([0x12, 0x30]) + bytes(rng.getrandbits(8) for _ in range(n_short - 2))
+        short = frame(ps)
+        filler = bytes(rng.getrandbits(8) for _ in range(n_long - n_short - 3))
+        long_payload = ps + short[-3:] + filler
+        assert len(long_payload) == n_long
+        lf = frame(long_payload)
+        diff = n_short ^ n_long
+        bits = [8 + 15 - b for b in range(10) if diff >> b & 1]      # bit positions (MSB-first from frame start) inside bytes 1..2
+        dam = bytearray(lf)
+        for q in bits:
+            dam[q // 8] ^= 0x80 >> (q % 8)
+        assert bytes(dam[:len(short)]) == short
+        out.append((lf, bits, short))
+    return out
+
+
+def bigcount_builds(tabs, rng, idents=None):
+    """messages whose repeat counters are large: 99 / 100 / 101 (three-digit indices) and the largest value that still fits 1023 bytes"""
+    out = []
+    for ident in (idents or list(tabs.ALL)):
+        keys = []
+
+        def top(d):
+            for k, v in d.items():
+                if isinstance(v, tuple) and isinstance(v[0], str):
+                    keys.append(v[0].split("+")[0])
+        top(tabs.ALL[ident])
+        for ck in dict.fromkeys(keys):
+            if ck not in tabs.DF or ck in ("NSat", "NSig", "NCell"):
+                continue
+            w = tabs.DF[ck][1]
+            cap = (1 << w) - 1
+            if cap < 99:
+                continue
+            for want in (99, 100, 101, cap, cap // 2):
+                if want > cap:
+                    continue
+                b = build(tabs, ident, rng, maxcount=0, force_counts={ck: want})
+                if b is not None and len(b.payload) <= 1023:
+                    out.append(b)
+    return out
 
 
 def nmea_sentence(rng, talker=b"GP"):
